@@ -124,3 +124,34 @@ Definition prog_handler : c_write_handler N := {|
 Definition null_handler : c_write_handler N := {|
   c_write_single_coil := None; c_write_single_register := None;
   c_write_multiple_coils := None; c_write_multiple_registers := None |}.
+
+(* ---------------------------------------------------------------- the authorization wrapper as a policy of the core *)
+(* AuthorizationHandlerWrapper (ONE object per server, shared by all its sessions) turns the application's eight C
+   authorization callbacks into the core's `policy` (Base/ServerTypes.v: kind -> unit id -> argument -> role -> bool).
+   A C callback sees (unit id, range or index, role string) and answers Allow / Deny; a NULL callback denies.
+   The generated rows (Gen/FfiTables.authz_wrappers) say where each argument comes from; a row whose role is NOT the
+   role parameter of the very call is interpreted with a role the policy cannot know (modelled as the empty role), so
+   that the role theorems cannot be proved over it. *)
+Definition c_authz_handler := kind -> option (N -> auth_arg -> role -> bool).
+
+Definition method_of_kind (k : kind) : string :=
+  match k with
+  | KReadCoils => "read_coils" | KReadDiscreteInputs => "read_discrete_inputs"
+  | KReadHoldingRegisters => "read_holding_registers" | KReadInputRegisters => "read_input_registers"
+  | KWriteSingleCoil => "write_single_coil" | KWriteSingleRegister => "write_single_register"
+  | KWriteMultipleCoils => "write_multiple_coils" | KWriteMultipleRegisters => "write_multiple_registers"
+  end%string.
+
+Definition authz_row (k : kind) : option authz_wrapper :=
+  find (fun w => String.eqb (aw_method w) (method_of_kind k)) authz_wrappers.
+
+Definition ffi_policy (C : c_authz_handler) : policy := fun k u arg r =>
+  match authz_row k with
+  | None => false
+  | Some w =>
+      let shown := match aw_role w with RoleOfThisCall => r | OtherRoleSource _ => [] end in
+      match (if String.eqb (aw_callback w) (aw_method w) then C k else None) with
+      | Some f => f u arg shown
+      | None => negb (aw_unset_denies w) && false
+      end
+  end.
